@@ -153,6 +153,23 @@ def make_events(case, counter, args):
     return evs
 
 
+def _strided(a):
+    big = np.full((2 * a.shape[0], 3 * a.shape[1]), 7.5)
+    big[::2, ::3] = a
+    return big[::2, ::3]
+
+
+# the array representations of one and the same Jacobian that the binding accepts
+JAC_REPS = {
+    "C": lambda a: a,
+    "F": lambda a: np.asfortranarray(a),
+    "T-view": lambda a: np.array(a.T).T,
+    "strided": _strided,
+    "csc": lambda a: sp.csc_matrix(a),
+    "csr": lambda a: sp.csr_matrix(a),
+}
+
+
 def tol(v):
     return unhex(v) if isinstance(v, str) else unhexs(v)
 
@@ -172,10 +189,11 @@ def solve(case, counter, **extra):
         kw["args"] = args
     if case["events"]:
         kw["events"] = make_events(case, counter, args)
+    rep = JAC_REPS[extra.pop("jac_rep", "C")]
     if case["jac"] == "callable":
-        kw["jac"] = jac
+        kw["jac"] = lambda *a: rep(jac(*a))
     elif case["jac"] == "constant":
-        kw["jac"] = const
+        kw["jac"] = rep(const)
     kw.update(extra)
     t0, tf = unhexs(case["t_span"])
     return ivp.solve_ivp(f, (t0, tf), unhexs(case["y0"]), **kw)
@@ -322,6 +340,23 @@ def run_case(case):
         return out.json(counter.n)
     compare(case, out, res, counter)
     calls = counter.n
+    # a constant or callable Jacobian is honoured whatever array layout it arrives in
+    if case["jac"] in ("callable", "constant") and len(case["y0"]) >= 2:
+        for name in JAC_REPS:
+            if name == "C":
+                continue
+            c3 = Counter()
+            try:
+                r3 = solve(case, c3, jac_rep=name)
+            except BaseException as e:
+                out.v("jac-representation", "ivp.solve_ivp raised %s with the Jacobian given as %s: %s" % (type(e).__name__, name, str(e)[:200]), rep=name)
+                continue
+            calls += c3.n
+            if not (same_bits(r3.t, res.t) and same_bits(r3.y, res.y)) or (r3.nfev, r3.njev, r3.nlu, r3.status) != (res.nfev, res.njev, res.nlu, res.status):
+                out.v("jac-representation", "the same Jacobian given as %s changes the result: %d vs %d samples, (nfev, njev, nlu) %r vs %r, y_end %r vs %r" % (
+                    name, len(r3.t), len(res.t), (r3.nfev, r3.njev, r3.nlu), (res.nfev, res.njev, res.nlu), r3.y[:, -1].tolist(), res.y[:, -1].tolist()), rep=name)
+            out.validated += 1
+        out.tags.append("jac-representations")
     if case["pattern"] is not None:
         n, mask = case["pattern"]["n"], case["pattern"]["mask"]
         P = np.array([[(mask >> (r * n + c)) & 1 for c in range(n)] for r in range(n)], dtype=float)
